@@ -14,7 +14,7 @@
    parameter set the session is built from: the object's alone under a FAPI profile, the object's
    with the outer parameters filling the gaps otherwise. *)
 From Verif Require Import Base Scope Types Prog Pop Token Authorize System Config Required Rets ConfigProofs C11Proofs.
-From Verif Require Import Jar RequiredJar C11JarProofs.
+From Verif Require Import Jar RequiredJar C11JarProofs C11JarPar.
 From Verif Require Import Run Monitors PkceProofs.
 From Verif.Corr Require C11Eff.
 Local Open Scope N_scope.
@@ -327,3 +327,68 @@ Theorem fapi_object_carries_required_mechanisms : forall w jx st n q o,
   exists c, registered w st c /\ c_id c = ar_client (jq_req q) /\ mech_missing (w_cfg w) c (inside o) = 0.
 Proof. exact fapi_object_carries_mechanisms. Qed.
 Print Assumptions fapi_object_carries_required_mechanisms.
+
+(* ---- pushed requests REQUIRED, in the presence of request objects (Model/RequiredJar.v step_gj) ----
+   par_required_enforced above speaks about requests without request_uri on the handlers of Required.v.
+   Here, for the JAR-aware authorization endpoint: for every state, every request - plain, with a request
+   object by value, with an https request_uri that REFERENCES a signed request object (JAR by reference;
+   Model/Jar.v JRef, which is not a pushed request_uri), with a urn - and every JAR configuration (enabled
+   or not, required or not, by reference or not): under PAR required, by the server or by every
+   registration of the client, an answer that hands out anything (page, code, token, id token) implies
+   that the request_uri names a STORED pushed session of that very client that has not expired. *)
+Theorem par_required_enforced_jar : forall w jx st n q,
+  cf_par_enabled (w_cfg w) = true ->
+  (cf_par_required (w_cfg w) = true \/
+   forall c, registered w st c -> c_id c = ar_client (jq_req q) -> c_par_required c = true) ->
+  obs_obtains (snd (step_gj w jx st n (GAuthorize q))) = true ->
+  p_request_uri (ar_params (jq_req q)) <> 0 /\
+  exists s, find (fun s => ideq (a_par s) (p_request_uri (ar_params (jq_req q)))) (st_asess (s_store st)) = Some s /\
+            a_client s = ar_client (jq_req q) /\ geb (s_now st) (a_expires s) = false.
+Proof. exact par_required_step. Qed.
+Print Assumptions par_required_enforced_jar.
+
+(* the same for configurations built by the option API *)
+Theorem par_required_option_enforced_jar : forall p opts cfg statics, build p opts = Some cfg ->
+  forall jx st n l q, In (WithPARRequired l) opts ->
+  obs_obtains (snd (step_gj (mkWorld cfg statics) jx st n (GAuthorize q))) = true ->
+  p_request_uri (ar_params (jq_req q)) <> 0 /\
+  exists s, find (fun s => ideq (a_par s) (p_request_uri (ar_params (jq_req q)))) (st_asess (s_store st)) = Some s /\
+            a_client s = ar_client (jq_req q) /\ geb (s_now st) (a_expires s) = false.
+Proof. exact par_required_option. Qed.
+Print Assumptions par_required_option_enforced_jar.
+
+(* hence a request without a (pushed) request_uri, or with one that names no stored pushed session, is
+   refused - whether or not it carries a request object, by value or by reference *)
+Theorem par_required_blocks_unpushed : forall w jx st n q,
+  cf_par_enabled (w_cfg w) = true ->
+  (cf_par_required (w_cfg w) = true \/
+   forall c, registered w st c -> c_id c = ar_client (jq_req q) -> c_par_required c = true) ->
+  (p_request_uri (ar_params (jq_req q)) = 0 \/
+   find (fun s => ideq (a_par s) (p_request_uri (ar_params (jq_req q)))) (st_asess (s_store st)) = None) ->
+  xrefused (snd (step_gj w jx st n (GAuthorize q))).
+Proof. exact par_required_blocks. Qed.
+Print Assumptions par_required_blocks_unpushed.
+
+(* ---- signed backchannel requests required BY THE CLIENT ----
+   A client registered with backchannel_authentication_request_signing_alg (jc_ciba_alg) must sign its
+   backchannel requests wherever the server has CIBA JAR enabled (shouldUseJARDuringCIBA): a request
+   without request object obtains no auth_req_id, in every state.  The front-channel registration
+   request_object_signing_alg (jc_jar_alg) is NOT that switch (ciba_jar_switch_is_the_ciba_alg). *)
+Theorem client_ciba_jar_required_enforced : forall w jx st n r,
+  cf_ciba_jar_enabled (w_cfg w) = true ->
+  jc_ciba_alg (jclient_of (jx_clients jx) (cr_id (br_cred r))) <> None ->
+  xrefused (snd (step_gj w jx st n (GBc r None))).
+Proof. exact client_ciba_jar_required_step. Qed.
+Print Assumptions client_ciba_jar_required_enforced.
+
+(* the server switch on the same handler *)
+Theorem ciba_jar_required_enforced_jar : forall p opts cfg statics, build p opts = Some cfg ->
+  forall jx st n r, In WithCIBAJARRequired opts ->
+  xrefused (snd (step_gj (mkWorld cfg statics) jx st n (GBc r None))).
+Proof. exact ciba_jar_required_option. Qed.
+Print Assumptions ciba_jar_required_enforced_jar.
+
+Theorem ciba_jar_switch_is_the_ciba_alg : forall cfg keys a1 a2 cb obj,
+  should_use_jar_ciba cfg (mkJClient keys a1 cb) obj = should_use_jar_ciba cfg (mkJClient keys a2 cb) obj.
+Proof. exact ciba_decision_ignores_jar_alg. Qed.
+Print Assumptions ciba_jar_switch_is_the_ciba_alg.
